@@ -184,6 +184,8 @@ pub struct Session {
     pub unparsable: Option<String>,
     /// the packet lengths of an object do not follow the rule the model assumes (input check)
     pub pktlen_odd: Option<String>,
+    /// the stand-alone scrape of an FDT instance's File list disagrees with the document (harness error)
+    pub scrape_odd: Option<String>,
 }
 
 impl Drop for Session {
@@ -531,6 +533,7 @@ pub fn build(sp: &SessP) -> Result<Session, String> {
     }
     // FDT instances: reassemble the source symbols, inflate, list the TOIs
     let mut fdts = Vec::new();
+    let mut scrape_odd: Option<String> = None;
     for id in fdt_order {
         let (len, syms) = &fdt_payloads[&id];
         let (al, asm, nl, n) = rfc_partition(sp.oti.b as u128, *len as u128, sp.oti.e as u128);
@@ -577,6 +580,21 @@ pub fn build(sp: &SessP) -> Result<Session, String> {
             }
         }
         tois.sort();
+        if complete {
+            // the scrape must account for every File element, and agree with flute's own parser where that accepts
+            // the document (verif hook): a miss would silently make the C02 / C16 oracles vacuous
+            let nfile = text.matches("<File ").count() + text.matches("<File>").count();
+            if nfile != tois.len() {
+                scrape_odd.get_or_insert(format!("FDT instance {}: {} File elements, {} TOI attributes read", id, nfile, tois.len()));
+            }
+            if let Some(sum) = flute::verif_hooks::fdt_parse_summary(&xml) {
+                let mut theirs: Vec<u128> = sum.files.iter().flatten().filter_map(|f| f.toi.parse::<u128>().ok()).collect();
+                theirs.sort();
+                if theirs != tois {
+                    scrape_odd.get_or_insert(format!("FDT instance {}: TOIs read {:?}, flute's parser {:?}", id, tois, theirs));
+                }
+            }
+        }
         fdts.push(FdtInst { id, len: *len, tois });
     }
     // datagram lengths per object: one length for all packets, except the packet carrying the last
@@ -608,7 +626,7 @@ pub fn build(sp: &SessP) -> Result<Session, String> {
         oi.pl = pl.or(pll).unwrap_or(0);
         oi.pll = pll.or(pl).unwrap_or(0);
     }
-    Ok(Session { sp: sp.clone(), objs, stream, fdts, sched, hash, sender_panic, stuck, tmp, unparsable, pktlen_odd })
+    Ok(Session { sp: sp.clone(), objs, stream, fdts, sched, hash, sender_panic, stuck, tmp, unparsable, pktlen_odd, scrape_odd })
 }
 
 impl Session {
